@@ -177,7 +177,6 @@ fn body_remove<const N: usize>(kinds: [Kind; N], pages: [u8; N], x: usize, extra
             assert!(l.k[0] == K::Write && l.a[0] == pfs::REGIONS && l.b[0] == idx * 4096 && l.c[0] == 4096);
             assert!(l.x[0][0] == 0 && l.x[0][1] == 0 && l.x[0][2] == 0 && l.x[0][3] == 0);
             inv_at(&wd, w, true);
-            kani::cover!(true, "region removed");
         }
         Err(_) => {
             // C13: refused (still referenced) => no effect at all
@@ -186,10 +185,10 @@ fn body_remove<const N: usize>(kinds: [Kind; N], pages: [u8; N], x: usize, extra
             assert!(vg::id_index(rs, IDS[idx]) == Some(idx) && vg::slot_is_some(rs, idx));
             assert!(ghost::len() == 0);
             inv_at(&wd, w, true);
-            kani::cover!(true, "remove of a still-referenced region refused");
         }
     }
     assert!(psync::nothing_held());
+    kani::cover!(res.is_ok() == (extra == 0), "end of harness reachable with the expected outcome");
     core::mem::forget((res, wd));
 }
 l2!(c01_remove_step, 6, { body_remove([Kind::Region, Kind::Region, Kind::Hole], [1, 2, 1], 1, 0); });
@@ -520,3 +519,65 @@ fn body_create<const N: usize>(kinds: [Kind; N], pages: [u8; N]) {
 l2!(c02_create_r1h2r1h1, 6, { body_create([Kind::Region, Kind::Hole, Kind::Region, Kind::Hole], [1, 2, 1, 1]); });
 l2!(c02_create_r1p1, 6, { body_create([Kind::Region, Kind::Pending], [1, 1]); });
 l2!(c02_create_r1r1, 6, { body_create([Kind::Region, Kind::Region], [1, 1]); });
+
+// ---------------------------------------------------------------------------------------------
+// C18 (the part that is code): open_with_min_len on the fs model.  A refused open (either file
+// locked by another holder) has modified nothing; the data file is locked before it may be resized.
+#[kani::proof]
+#[kani::unwind(9)]
+#[kani::stub(alloc::fmt::format, stubs::format_stub)]
+#[kani::stub(crate::Database::sync_bg_tasks, crate::verif_root::sync_bg_tasks_stub)]
+#[kani::stub(<[u8]>::to_vec, stubs::to_vec_stub)]
+fn c18_open_refusal_has_no_effect() {
+    let data_len: usize = kani::any();
+    let min_len: usize = kani::any();
+    kani::assume(data_len <= 8 * PAGE_SIZE && data_len % PAGE_SIZE == 0 && min_len <= 16 * PAGE_SIZE);
+    let data_locked = kani::any::<bool>();
+    let regions_locked = kani::any::<bool>();
+    {
+        let fs = pfs::state();
+        fs.files[pfs::DATA].len = data_len;
+        fs.files[pfs::DATA].locked_elsewhere = data_locked;
+        fs.files[pfs::REGIONS].len = 0; // no metadata slots: fill() and Layout::from are trivial
+        fs.files[pfs::REGIONS].locked_elsewhere = regions_locked;
+    }
+    ghost::clear();
+    let res = Database::open_with_min_len(std::path::Path::new("d"), min_len);
+    let l = ghost::get();
+    // positions
+    let (mut lock_data, mut first_setlen, mut first_sync) = (usize::MAX, usize::MAX, usize::MAX);
+    let mut truncating_open = false;
+    anydb_verif_platform::unroll20!(i, {
+        if i < l.n {
+            if l.k[i] == K::TryLock && l.a[i] == pfs::DATA && lock_data == usize::MAX { lock_data = i; }
+            if l.k[i] == K::SetLen && first_setlen == usize::MAX { first_setlen = i; }
+            if l.k[i] == K::Sync && first_sync == usize::MAX { first_sync = i; }
+            if l.k[i] == K::Open && l.b[i] != 0 { truncating_open = true; }
+        }
+    });
+    assert!(!truncating_open, "a file was opened with truncate(true)");
+    // the lock attempt on the data file precedes any resize / sync
+    assert!(first_setlen == usize::MAX || lock_data < first_setlen);
+    assert!(first_sync == usize::MAX || lock_data < first_sync);
+    let fs = pfs::state();
+    match &res {
+        Ok(db) => {
+            assert!(!data_locked && !regions_locked);
+            assert!(fs.files[pfs::DATA].locked && fs.files[pfs::REGIONS].locked);
+            let want = if data_len < min_len { min_len } else { data_len };
+            assert!(fs.files[pfs::DATA].len == want && db.file_len() == want);
+            kani::cover!(data_len < min_len, "pre-sized on open");
+        }
+        Err(_) => {
+            assert!(data_locked || regions_locked);
+            if data_locked {
+                // refused before anything was touched
+                assert!(ghost::count(K::SetLen) == 0 && ghost::count(K::Sync) == 0 && ghost::count(K::Write) == 0);
+                assert!(fs.files[pfs::DATA].len == data_len);
+            }
+            assert!(fs.files[pfs::REGIONS].len == 0);
+            kani::cover!(data_locked && data_len < min_len, "refused open with a larger min_len");
+        }
+    }
+    core::mem::forget(res);
+}
